@@ -389,4 +389,36 @@ func threadSafeList.Values
   ghost before call list.Values: assert rheld(t.mutex) && arg0 == t.list && true
   ensures unlocked(t.mutex)
 
+
+-- ---------------------------------------------------------------------------------------------------------------
+-- PushBackList / PushFrontList: exactly as many values are inserted as the other list held when the call started - also
+-- when the other list is this list, which grows while it is being copied (container/list allows l.PushBackList(l)).
+-- (checked for this counting statement only - opt only-ghost-asserts: the element chain of the other list is reached
+-- through the List / ListElement interfaces, which are unknown calls here; what is inserted where is insertValue's contract)
+func List.Len(l) (r)
+  ensures r >= 0
+func list.PushBackList
+  opt only-ghost-asserts
+  opt assume-no-overflow
+  requires l != nil
+  modifies everything
+  ghost local cnt Int       -- the length of the other list at the start (ghost)
+  ghost local ins Int       -- values inserted so far (ghost)
+  ghost at entry: ins = 0
+  ghost after call List.Len: cnt = result
+  ghost after call list.insertValue: ins = ins + 1
+  loop 1 invariant i >= 0 && ins + i == cnt
+  ghost at return: assert ins == cnt
+func list.PushFrontList
+  opt only-ghost-asserts
+  opt assume-no-overflow
+  requires l != nil
+  modifies everything
+  ghost local cnt Int
+  ghost local ins Int
+  ghost at entry: ins = 0
+  ghost after call List.Len: cnt = result
+  ghost after call list.insertValue: ins = ins + 1
+  loop 1 invariant i >= 0 && ins + i == cnt
+  ghost at return: assert ins == cnt
 @*/
